@@ -10,6 +10,7 @@ from __future__ import annotations
 
 import copy
 import json
+import zlib
 
 from ..api import J, call
 from .. import gen, jwsgen
@@ -35,6 +36,13 @@ BUDGET = {"quick": 50.0, "thorough": 600.0}
 
 VERIFY_SUFFIX = (".verify",)
 UNPROTECTED_ONLY = ("b64-unprotected", "unprotected-shadow", "recast-flattened", "recast-general", "recast-reordered", "valid")
+
+
+def as_given(token):
+    """compact tokens are accepted as str and as bytes: a third of them (chosen by content, so that a replay takes the same form) go in as bytes"""
+    if isinstance(token, str) and zlib.crc32(token.encode("utf-8", "surrogatepass")) % 3 == 0:
+        return token.encode("utf-8", "surrogatepass")
+    return token
 
 
 def shards(tier):
@@ -395,7 +403,7 @@ class Monitor:
         ctx = self.ctx
         ctx.ev()
         with self.tr.record() as ev:
-            o = call(ep, token, jkey, allow)
+            o = call(ep, as_given(token), jkey, allow)
         nver = len(calls(ev, ".verify"))
         case = {"family": family, "detail": detail, "entry": ep_name, "token": token, "keys": base.keys, "allow": allow,
                 "form": base.form, "detached": detached}
